@@ -416,6 +416,11 @@ func (m *mux) Close() {
 	}
 	m.dpool.Close()
 	m.spool.Close()
+	// The dead wire also carries the error of the last failed dial (see makeMux). Once the mux is closed it is what
+	// every call gets, so it must report ErrClosing again rather than that stale dial error.
+	if d, ok := m.dead.(*pipe); ok {
+		d.error.Store(errClosing)
+	}
 }
 
 func (m *mux) Addr() string {
